@@ -96,6 +96,52 @@ def build_rows(rep, tier, module="MC_Semantics.tla", invariants=None):
     return d
 
 
+DEEP_INVARIANTS = ["Deep_NoFalseAlarm", "Deep_MustReject", "Deep_AcceptedIsWeak", "Deep_EveryIndexReachable",
+                   "Deep_ReadBound", "Deep_NonVacuous"]
+
+DEEP_CFG = """SPECIFICATION Spec
+CONSTANTS
+  Depth = %(depth)d
+  L = 3
+  Emit = TRUE
+  Mut = "none"
+%(invs)s
+INVARIANT EmitObjs
+INVARIANT EmitRows
+CHECK_DEADLOCK FALSE
+"""
+
+
+def build_deep_rows(rep, depth):
+    """MC_SemDeep: hints nested to ``depth`` with hint-derived objects; rows cached by spec hash."""
+    tag = f"deep{depth}"
+    d = os.path.join(SCRATCH, f"rows-{tag}-{_spec_hash(tag, 'MC_SemDeep.tla')}")
+    if os.path.exists(os.path.join(d, "DONE")):
+        st = json.load(open(os.path.join(d, "DONE")))
+        rep.cov["states"] = rep.cov.get("states", 0) + st["distinct"]
+        rep.cov["transitions"] = rep.cov.get("transitions", 0) + st["generated"]
+        rep.cov.setdefault("tlc_runs", []).append({"label": f"MC_SemDeep depth {depth} (cached rows of this spec version)", **st})
+        return d
+    for old in glob.glob(os.path.join(SCRATCH, f"rows-{tag}-*")):
+        shutil.rmtree(old, ignore_errors=True)
+    os.makedirs(d, exist_ok=True)
+    cfg = os.path.join(SCRATCH, f"mc_deep_{depth}_{os.getpid()}.cfg")
+    with open(cfg, "w") as fh:
+        fh.write(DEEP_CFG % {"depth": depth, "invs": "\n".join(f"INVARIANT {i}" for i in DEEP_INVARIANTS)})
+    try:
+        res = tlc.run_tlc("MC_SemDeep.tla", cfg, env={"ROW_DIR": d}, timeout=7200, heap="16g")
+    finally:
+        os.remove(cfg)
+    rep.tlc(res, f"MC_SemDeep depth {depth}: design invariants + rows")
+    if res.violated:
+        shutil.rmtree(d, ignore_errors=True)
+        rep.machinery(f"MC_SemDeep (depth {depth}) violates {res.violated} at hint index "
+                      f"{[s_.get('hid') for a_, s_ in res.error_trace][-1:]}")
+    with open(os.path.join(d, "DONE"), "w") as fh:
+        json.dump({"distinct": res.distinct, "generated": res.generated, "wall_s": round(res.wall_s, 1)}, fh)
+    return d
+
+
 def signal_table(rep):
     """Run TLC on Signal.tla (option lattice -> signal) and return {(vt, vk, kind): signal} for rejections."""
     from verifkit.util import scratch
@@ -148,26 +194,45 @@ def _worker(args):
     objs_doc = json.load(open(os.path.join(rows_dir, "objs.json")))
     objs, confs, lcm = objs_doc["objs"], objs_doc["confs"], objs_doc["lcm"]
     w = World()
-    index = {okey(o): j for j, o in enumerate(objs)}
-    real = [None] * len(objs)
-    jmap = list(range(len(objs)))
-    for j, o in enumerate(objs):
-        if o["k"] != "iter":
-            real[j] = w.obj(o)
-        if '"set"' in okey(o) or "frozenset" in okey(o):
-            po = w.project_order(o, None)
-            jm = index.get(okey(po))
-            if jm is None:
-                return {"fatal": f"projection of object {j} not in the universe: {okey(po)[:200]}"}
-            jmap[j] = jm
+    prep = _prep_objs(w, objs)
+    if "fatal" in prep:
+        return prep
+    real, jmap = prep["real"], prep["jmap"]
     out = {"issues": [], "n_calls": 0, "n_pairs": 0, "nontrivial": set(), "drift": 0, "drift_ex": [],
            "samples": [], "draw_calls_max": 0, "counts": {}}
     for hid in hids:
         for f in sorted(glob.glob(os.path.join(rows_dir, f"row_{hid}_*.json"))):
             row = json.load(open(f))
-            _replay_row(w, row, objs, real, jmap, confs, lcm, opts, out)
+            if "objs" in row:                      # rows that carry their own (hint-derived) objects
+                p2 = _prep_objs(w, row["objs"], strict=False)
+                _replay_row(w, row, row["objs"], p2["real"], p2["jmap"], confs, lcm, opts, out)
+                out["skipped_objs"] = out.get("skipped_objs", 0) + p2["skipped"]
+            else:
+                _replay_row(w, row, objs, real, jmap, confs, lcm, opts, out)
     out["nontrivial"] = sorted(out["nontrivial"])
     return out
+
+
+def _prep_objs(w, objs, strict=True):
+    """Build the real objects; map each to the row entry whose abstract iteration order equals the real one."""
+    index = {okey(o): j for j, o in enumerate(objs)}
+    real = [None] * len(objs)
+    jmap = list(range(len(objs)))
+    skipped = 0
+    for j, o in enumerate(objs):
+        if o["k"] != "iter":
+            real[j] = w.obj(o)
+        ks = okey(o)
+        if '"set"' in ks or "frozenset" in ks:
+            po = w.project_order(o, None)
+            jm = index.get(okey(po))
+            if jm is None:
+                if strict:
+                    return {"fatal": f"projection of object {j} not in the universe: {okey(po)[:200]}"}
+                jm = -1
+                skipped += 1
+            jmap[j] = jm
+    return {"real": real, "jmap": jmap, "skipped": skipped}
 
 
 def _issue(out, prop, kind, row, j, objs, detail, extra=None):
@@ -194,6 +259,9 @@ def _replay_row(w, row, objs, real, jmap, confs, lcm, opts, out):
     cabs = confs[ci - 1]
     conf = real_conf(w, cabs)
     code, chk, idx = row["code"], row["chk"], row["idx"]
+    if -1 in jmap:                # objects whose real iteration order has no row entry: neutral codes
+        code, chk, idx = code + [8], chk + [0], idx + [0]
+        chk = list(chk)
     n = len(objs)
     draws = range(lcm)
     nsp = opts.get("spellings", 2)
@@ -263,7 +331,7 @@ def _replay_row(w, row, objs, real, jmap, confs, lcm, opts, out):
                             _issue(out, "C02", "nonrandom_not_first", row, j, objs,
                                    f"is_random=False: item 0 violates but the sequence is accepted "
                                    f"(spelling {hint!r})", {"sp": sp})
-            if m != chk[jm]:
+            if jm != -1 and m != chk[jm]:
                 out["drift"] += 1
                 if len(out["drift_ex"]) < 5:
                     out["drift_ex"].append(f"{short_hint(h)} conf{ci} {short_obj(objs[j])}: real accept-mask "
